@@ -345,10 +345,9 @@ fn do_map_update(
     f: KValue,
     vm: &mut KotoVm,
 ) -> Result<KValue> {
-    if !map.data().contains_key(&key) {
-        map.data_mut().insert(key.clone(), default);
-    }
-    let value = map.get(&key).unwrap();
+    // Insert the default and read the current value in a single step,
+    // the map could be modified via another thread in between separate steps.
+    let value = map.data_mut().entry(key.clone()).or_insert(default).clone();
     match vm.call_function(f, value) {
         Ok(new_value) => {
             map.data_mut().insert(key, new_value.clone());
